@@ -118,6 +118,62 @@ func (e *SpecEnv) readsArgs(sf *SpecFn, n *SpecEnv) (sorts, terms []string) {
 	return
 }
 
+// readsFrame: frame rule for a heap-reading spec function (uninterp ... reads / rec) w.r.t. the ENTRY state of the function
+// under verification (opt-in `uses readsframe`). When the function is applied in a state whose heap arguments differ from
+// the entry state's, the implication
+//
+//	(every pointer argument was allocated before entry) && (the two states agree on every pre-existing cell of the listed
+//	components) ==> F[state](args) == F[entry](args)
+//
+// is assumed for these ground arguments. Soundness (type-safe heap): the value of F depends only on memory reachable from its
+// arguments; the arguments pre-exist, every pre-existing cell holds what it held at entry, and a cell of the entry heap only
+// points to pre-existing objects (heap closure), so by induction everything F reaches pre-exists and is unchanged: objects
+// allocated since entry cannot influence it. Not emitted under a quantifier (the arguments are not ground there).
+func (e *SpecEnv) readsFrame(name, retSort string, heapSorts, cur []string, entTerms func(ent *SpecEnv) []string, argSorts []string, args []SV) {
+	fc := e.fc
+	if e.inQuant > 0 || !fc.usesFact("readsframe") {
+		return
+	}
+	entEnv := *e
+	entEnv.cur = &State{heap: map[string]string{}}
+	ent := entTerms(&entEnv)
+	if len(ent) != len(cur) {
+		return
+	}
+	w0 := compInit("W")
+	var prem []string
+	same := true
+	for i := range cur {
+		if cur[i] == ent[i] {
+			continue
+		}
+		same = false
+		if strings.HasPrefix(heapSorts[i], "(Array Ptr ") {
+			prem = append(prem, fmt.Sprintf("(forall ((p Ptr)) (! (=> (< (root p) %s) (= (select %s p) (select %s p))) :pattern ((select %s p))))", w0, cur[i], ent[i], cur[i]))
+		} else {
+			prem = append(prem, eq(cur[i], ent[i]))
+		}
+	}
+	if same {
+		return
+	}
+	var ats []string
+	for _, a := range args {
+		ats = append(ats, a.t)
+		switch fc.tc.sortOfSV(a) {
+		case "Ptr":
+			prem = append(prem, app("<", app("root", a.t), w0))
+		case "Slice":
+			prem = append(prem, app("<", app("root", sarr(a.t)), w0))
+		case "Iface":
+			prem = append(prem, app("<", app("root", app("iptr", a.t)), w0))
+		}
+	}
+	fc.eng.declareUF(fc, name, append(append([]string{}, heapSorts...), argSorts...), retSort)
+	fc.assume("true", implies(and(prem...), eq(app(name, append(append([]string{}, cur...), ats...)...), app(name, append(append([]string{}, ent...), ats...)...))))
+	fc.assumes["frame rule for heap-reading spec functions (uses readsframe): objects allocated after entry do not influence "+name] = true
+}
+
 // canonTypeString: types.TypeString with the predeclared aliases resolved (byte -> uint8, rune -> int32), so that a map
 // type written `map[int]*[32]byte` in the source and the same type built from a spec binder name the same heap component.
 func canonTypeString(t types.Type) string {
